@@ -2,6 +2,7 @@
 from ..ir import E
 from .. import q
 from ..fsm import assignments
+from ..flow import reg_flow, TOP
 
 TITLE = 'HyperRAM command word, chip select and bus drive'
 FLOOR = 50
@@ -557,3 +558,30 @@ def run(ctx):
     o = _next(fsm, wr, REG)
     ctx.ob('C53.ends-on-final-word', '%s.next@write[register]' % CLS, {d for d in o} <= set(ends) | {init, None}, fsm.state_loc[wr],
            'a register write may only end into an end/initial state: outcomes %s' % sorted(map(R, o)))
+
+    # ---------------------------------------------------------------- (f) no history from an earlier transaction
+    # A register that the read state writes from the PHY inputs and consults in a guard (the previous half-cycle sample
+    # used to recognise data when the clock is inverted) carries history: whatever the previous transaction left in it
+    # is seen in the first cycle of the next read phase, where it can fake "the memory strobed RWDS" before the latency
+    # has passed.  Its possible values on every entry into the read state must be its reset value only.
+    hist = set()
+    for x in list(fsm.out_edges(rd)) + [a for a in ir.assigns if a.state == (fsm.id, rd)]:
+        for l in x.guard:
+            if isinstance(l.e, E):
+                for n in l.e.sigs():
+                    ds = ir.drivers(n, exact=True)
+                    if ds and any(d.domain != 'comb' and d.state == (fsm.id, rd) for d in ds) and not n.startswith('self.'):
+                        hist.add(n)
+    ctx.need(hist, 'the history register consulted by the read state (previous half-cycle RWDS sample)')
+    for h in sorted(hist):
+        si = ir.signals[h]
+        after, possible = reg_flow(ir, fsm, h)
+        reset = (si.init or 0) & ((1 << (si.w or 1)) - 1)
+        for e in fsm.in_edges(rd):
+            if e.src == rd:
+                continue
+            got = after(e, possible[e.src])
+            ctx.ob('C53.no-stale-history', '%s.%s@%s->read' % (CLS, h, R(e.src)), got == {reset}, e.loc,
+                   'the register %s is consulted by a guard of the read state before that state has written it in this '
+                   'transaction: on entry it must hold its reset value %d whatever the previous transaction left behind; '
+                   'possible values on entry: %s' % (h, reset, sorted(map(str, got))))
